@@ -149,6 +149,33 @@ def run(ctx):
                 rep.check(not problems, 'R-KWARGS', 'nd_scipy.Jacobian.__call__', where,
                           {'keywords': sorted(kws), 'problems': problems[:3]}, 'options forwarded unchanged', label,
                           key='kwargs')
+    # reuse of one object with other call arguments: nothing of the first call may reach the second
+    rep.rule('R-REUSE', 'a second call on the same object with other *args / **kwds forwards the new ones only (no value computed in '
+             'the first call, e.g. f(x), is handed to approx_derivative)', 2)
+    for method in ('forward', 'central'):
+        del captured[:]
+        evals = []
+
+        def fun2(x, *aa, **kk):
+            evals.append((aa, tuple(sorted(kk.items()))))
+            return Poly.sym('fval%d' % len(evals))
+        obj = J(fun2, method=method)
+        x = Arr((2,), [Poly.sym('x0'), Poly.sym('x1')])
+        obj(x, Poly.sym('first'), p=Poly.sym('kw1'))
+        n_evals_first = len(evals)
+        obj(x, Poly.sym('second'), p=Poly.sym('kw2'))
+        c = captured[-1]
+        kws = dict(c['kw'])
+        problems = []
+        if tuple(kws.get('args', ())) != (Poly.sym('second'),) or kws.get('kwargs') != {'p': Poly.sym('kw2')}:
+            problems.append('second call forwards args=%r kwargs=%r' % (kws.get('args'), kws.get('kwargs')))
+        f0 = kws.get('f0')
+        if f0 is not None:
+            stale = [e for e in evals[:n_evals_first]]
+            if isinstance(f0, Poly) and any(('fval%d' % (k + 1)) in f0.atoms() for k in range(n_evals_first)):
+                problems.append('f0 of the second call is a value computed during the first call')
+        rep.check(not problems, 'R-REUSE', 'nd_scipy.Jacobian.__call__', where, {'problems': problems[:2], 'keywords': sorted(kws)},
+                  'only the arguments of the current call are forwarded', 'Jacobian(%s) called twice' % method, key='reuse')
     # Gradient
     for xshape in ((3,), (1,), (2, 2), ()):
         del captured[:]
